@@ -168,3 +168,6 @@ func VerifSearchParamsPairs(s *SearchParams) []string {
 	}
 	return r
 }
+
+// VerifPeekSearchParams returns the search parameters object of u if it has been created, without creating it.
+func VerifPeekSearchParams(u *Url) *SearchParams { return u.searchParams }
